@@ -365,14 +365,197 @@ theorem mean_spec (s : Spec) (p : Nat) (hp : s.p = p + 1) (A : QMat) (c μ : QVe
       rw [← hA, hμ, hcv]; exact hsys
     exact ⟨hfix, C18.mean_fixed_point p Al _ _ hfix⟩
 
+/-! ### resimulation reproduces the data; the companion form -/
+
+theorem sumTo_eq_sum (n : Nat) (f : Nat → Rat) : sumTo n f = ∑ k ∈ Finset.range n, f k := foldl_sum n f
+
+theorem sumTo_add (a b : Nat) (f : Nat → Rat) : sumTo (a + b) f = sumTo a f + sumTo b (fun k => f (a + k)) := by
+  rw [sumTo_eq_sum, sumTo_eq_sum, sumTo_eq_sum, Finset.sum_range_add]
+
+theorem fill_get (a : OMat) (d : Rat) (i j : Nat) (hi : i < a.rows) (hj : j < a.cols) :
+    (a.fill d).get i j = (a.get i j).getD d := by
+  unfold OMat.fill
+  rw [get_ofFn_of_lt _ _ _ _ _ hi hj]
+
+/-- completeness of the data used below: every cell of `Y` (n × cols) and of `X` (m × cols) is a number -/
+structure Complete (s : Spec) (Y X : OMat) : Prop where
+  Y_rows : Y.rows = s.n
+  X_rows : X.rows = s.m
+  X_cols : X.cols = Y.cols
+  Y_some : ∀ i j, i < s.n → j < Y.cols → (Y.get i j).isSome = true
+  X_some : ∀ k j, k < s.m → j < Y.cols → (X.get k j).isSome = true
+
+theorem reg_some (s : Spec) (Y X : OMat) (hc : Complete s Y X) (r τ : Nat) (hτ : s.p + τ < Y.cols) :
+    (reg s Y X r τ).isSome = true := by
+  unfold reg
+  split
+  · rename_i h
+    unfold y1
+    have hn : 0 < s.n := by
+      unfold Spec.numLagged at h
+      rcases Nat.eq_zero_or_pos s.n with h0 | h0
+      · rw [h0] at h; simp at h
+      · exact h0
+    exact hc.Y_some _ _ (Nat.mod_lt _ hn) (Nat.lt_of_le_of_lt (Nat.sub_le _ _) hτ)
+  · split
+    · rename_i h1 h2
+      unfold xx
+      exact hc.X_some _ _ (by omega) hτ
+    · rfl
+
+theorem regsFinite_of_complete (s : Spec) (Y X : OMat) (hc : Complete s Y X) (τ : Nat)
+    (hτ : s.p + τ < Y.cols) : regsFinite s Y X τ = true := by
+  unfold regsFinite
+  rw [List.all_eq_true]
+  intro r _
+  exact reg_some s Y X hc r τ hτ
+
+theorem some_getD {α : Type} (o : Option α) (d : α) (h : o.isSome = true) : o = some (o.getD d) := by
+  cases o with
+  | none => cases h
+  | some v => rfl
+
+/-- the simulated value computed from the data equals the fitted value of the estimation equation -/
+theorem simValue_eq_fit (s : Spec) (beta : QMat) (Y X : OMat) (hc : Complete s Y X) (E : QMat)
+    (i τ : Nat) (hi : i < s.n) (hτ : s.p + τ < Y.cols) :
+    simValue s (coefA s beta) (coefB s beta)
+        ((coefC s beta).getD ((Array.range s.n).map (fun _ => 0))) (X.fill 0) E (Y.fill 0) i (s.p + τ)
+      = fitAt s beta Y X i τ + E.get i (s.p + τ) := by
+  unfold simValue fitAt
+  have hA : sumTo s.numLagged (fun r => (coefA s beta).get i r * (Y.fill 0).get (r % s.n) (s.p + τ - (r / s.n + 1)))
+      = sumTo s.numLagged (fun r => beta.get i r * (reg s Y X r τ).getD 0) := by
+    apply sumTo_congr
+    intro r hr
+    have hn : 0 < s.n := by
+      unfold Spec.numLagged at hr
+      rcases Nat.eq_zero_or_pos s.n with h0 | h0
+      · rw [h0] at hr; simp at hr
+      · exact h0
+    unfold coefA reg y1
+    rw [get_block, if_pos ⟨by omega, by omega⟩, if_pos hr, Nat.zero_add, Nat.zero_add,
+      fill_get _ _ _ _ (by rw [hc.Y_rows]; exact Nat.mod_lt _ hn) (Nat.lt_of_le_of_lt (Nat.sub_le _ _) hτ)]
+  have hB : sumTo s.m (fun k => (coefB s beta).get i k * (X.fill 0).get k (s.p + τ))
+      = sumTo s.m (fun k => beta.get i (s.numLagged + k) * (reg s Y X (s.numLagged + k) τ).getD 0) := by
+    apply sumTo_congr
+    intro k hk
+    unfold coefB reg xx
+    rw [get_block, if_pos ⟨by omega, by omega⟩, if_neg (by omega), if_pos (by omega), Nat.zero_add,
+      Nat.add_sub_cancel_left, fill_get _ _ _ _ (by rw [hc.X_rows]; exact hk) (by rw [hc.X_cols]; exact hτ)]
+  have hC : ((coefC s beta).getD ((Array.range s.n).map (fun _ => 0))).getD i 0
+      = sumTo (if s.icpt then 1 else 0)
+          (fun k => beta.get i (s.numLagged + s.m + k) * (reg s Y X (s.numLagged + s.m + k) τ).getD 0) := by
+    unfold coefC
+    by_cases hic : s.icpt = true
+    · simp only [hic, if_true, Option.getD_some]
+      unfold sumTo reg
+      simp [hi]
+    · simp only [hic, Bool.false_eq_true, if_false, Option.getD_none]
+      unfold sumTo
+      simp [hi]
+  rw [hA, hB, hC]
+  have hsplit : s.numRhs = s.numLagged + s.m + (if s.icpt then 1 else 0) := by
+    unfold Spec.numRhs Spec.numNonendog; omega
+  rw [hsplit, sumTo_add, sumTo_add]
+  ring
+
+/-- **`C18.simulate_reproduces` end to end on the model.**  For complete data, resimulating all base periods with the
+residuals the estimator reports (whatever the coefficient matrix is) returns the data exactly, in every cell. -/
+theorem resimulate_reproduces (s : Spec) (Y X : OMat) (e : Estimate) (hc : Complete s Y X) (hp : 1 ≤ s.p)
+    (hpc : s.p ≤ Y.cols) (hu : e.u = OMat.ofFn s.n (numBase s Y) (residual s e.beta Y X))
+    (path : QMat) (h : resimulate s Y X e = some path) :
+    ∀ i j, i < s.n → j < Y.cols → path.get i j = (Y.get i j).getD 0 := by
+  unfold resimulate at h
+  simp only at h
+  split at h
+  · cases h
+  · injection h with h
+    intro i j hi hj
+    have hnb : s.p + numBase s Y = Y.cols := by unfold numBase; omega
+    have key := C18.simulate_reproduces s (coefA s e.beta) (coefB s e.beta)
+      ((coefC s e.beta).getD ((Array.range s.n).map (fun _ => 0))) (X.fill 0)
+      (QMat.ofFn s.n Y.cols (fun i j => if j < s.p then 0 else (e.u.get i (j - s.p)).getD 0))
+      (Y.fill 0) (Y.fill 0) s.p (numBase s Y) hp hc.Y_rows.symm rfl rfl (by show _ ≤ Y.cols; omega)
+      (fun _ _ _ _ => rfl) ?_ i j (by show i < Y.rows; rw [hc.Y_rows]; exact hi) (by omega)
+    · rw [← h, key, fill_get _ _ _ _ (by rw [hc.Y_rows]; exact hi) hj]
+    · intro t ht1 ht2 i' hi'
+      have hi'' : i' < s.n := by rw [← hc.Y_rows]; exact hi'
+      obtain ⟨τ, rfl⟩ : ∃ τ, t = s.p + τ := ⟨t - s.p, by omega⟩
+      have hτ : s.p + τ < Y.cols := by omega
+      have hτb : τ < numBase s Y := by omega
+      rw [simValue_eq_fit s e.beta Y X hc _ i' τ hi'' hτ, get_ofFn_of_lt _ _ _ _ _ hi'' hτ,
+        if_neg (by omega), Nat.add_sub_cancel_left, hu, omat_get_ofFn _ _ _ _ _ hi'' hτb,
+        fill_get _ _ _ _ hi' hτ]
+      unfold residual y0
+      rw [some_getD (Y.get i' (s.p + τ)) 0 (hc.Y_some _ _ hi'' hτ)]
+      simp only [regsFinite_of_complete s Y X hc τ hτ, if_true, Option.getD_some]
+      ring
+
+theorem estimate_base_pos (s : Spec) (dof : Bool) (Y X : OMat) (pr : Option (List Prior)) (e : Estimate)
+    (he : estimate s dof Y X pr = .ok e) : s.p < Y.cols := by
+  unfold estimate at he
+  simp only at he
+  split at he
+  · cases he
+  · rename_i hne
+    have h1 : (fitted s Y X).length ≤ numBase s Y := by
+      unfold fitted
+      exact (List.length_filter_le _ _).trans (by simp)
+    unfold numBase at h1
+    omega
+
+/-- … in particular for the residuals of a successful `estimate` -/
+theorem estimate_resimulate_reproduces (s : Spec) (dof : Bool) (Y X : OMat) (pr : Option (List Prior))
+    (e : Estimate) (he : estimate s dof Y X pr = .ok e) (hc : Complete s Y X) (hp : 1 ≤ s.p)
+    (path : QMat) (h : resimulate s Y X e = some path) :
+    ∀ i j, i < s.n → j < Y.cols → path.get i j = (Y.get i j).getD 0 :=
+  resimulate_reproduces s Y X e hc hp (Nat.le_of_lt (estimate_base_pos s dof Y X pr e he))
+    (estimate_ok s dof Y X pr e he).2.2.2.1 path h
+
+/-! ### the companion form -/
+
+/-- **the model's companion matrix is `C18.companion`** (so `C18.companion_step` is a statement about it): with the
+flat index `l · n + i` of lag `l`, variable `i` (`finProdFinEquiv`) and `A_l = A[:, l n : (l+1) n]` -/
+theorem companionT_view (s : Spec) (p : Nat) (hp : s.p = p + 1) (A : QMat) :
+    ((companionT s A).toMat ((p + 1) * s.n) ((p + 1) * s.n)).submatrix finProdFinEquiv finProdFinEquiv
+      = C18.companion p (fun (l : Fin (p + 1)) (i j : Fin s.n) => A.get i (l * s.n + j)) := by
+  ext ⟨la, ia⟩ ⟨lb, ib⟩
+  have hL : s.numLagged = (p + 1) * s.n := by unfold Spec.numLagged; rw [hp, Nat.mul_comm]
+  have ha : (ia : Nat) + s.n * la < (p + 1) * s.n := (finProdFinEquiv (la, ia)).isLt
+  have hb : (ib : Nat) + s.n * lb < (p + 1) * s.n := (finProdFinEquiv (lb, ib)).isLt
+  unfold companionT C18.companion
+  simp only [Matrix.submatrix_apply, toMat_apply, finProdFinEquiv_apply_val]
+  rw [get_ofFn_of_lt _ _ _ _ _ (by rw [hL]; exact ha) (by rw [hL]; exact hb)]
+  have hia := ia.isLt
+  have hib := ib.isLt
+  refine Fin.cases ?_ (fun l0 => ?_) la
+  · simp only [Fin.val_zero, Nat.mul_zero, Nat.add_zero, hia, if_true, Fin.cases_zero]
+    rw [Nat.mul_comm, Nat.add_comm]
+  · have hge : ¬ ((ia : Nat) + s.n * ((Fin.succ l0 : Fin (p + 1)) : Nat) < s.n) := by
+      rw [Fin.val_succ, Nat.mul_succ]; omega
+    simp only [hge, if_false, Fin.cases_succ]
+    congr 1
+    rw [Fin.val_succ, Nat.mul_succ, Fin.ext_iff, Fin.ext_iff, Fin.val_castSucc]
+    apply propext
+    constructor
+    · intro h
+      have h1 : (ib : Nat) + s.n * lb = (ia : Nat) + s.n * l0 := by omega
+      have h2 := congrArg (· % s.n) h1
+      simp only [Nat.add_mul_mod_self_left, Nat.mod_eq_of_lt hia, Nat.mod_eq_of_lt hib] at h2
+      refine ⟨?_, h2.symm⟩
+      have h3 : s.n * (lb : Nat) = s.n * (l0 : Nat) := by omega
+      exact Nat.eq_of_mul_eq_mul_left (by omega) h3
+    · rintro ⟨h1, h2⟩
+      rw [h1, h2]; omega
+
+
 /-
 What is NOT bridged for C18:
 * non-singularity of `X Xᵀ` (the hypothesis `hdet` of `estimate_eq_closed_form`/`estimate_noise_free`) is not derived
   from the model: `solveChecked` returning `some` proves `A X = B`, not that `A` is invertible (that would need the
   correctness of Gauss-Jordan `QMat.solve`, unproved by design);
 * the converse (a non-singular system makes `estimate` return `ok`) needs the same;
-* the companion form of the model (`companionT`, `companionK`) is not yet connected to `C18.companion_step`
-  (a reindexing `Fin (p+1) × Fin n ≃ Fin ((p+1) n)` is what is needed); `cov` and `mean` are bridged above.
+* `resimulate_reproduces` assumes complete data (`Complete`): with a NaN in a base period the residual is NaN, the
+  model substitutes 0 and the simulated value is the fit, not the (missing) datum -- the statement is then false.
 -/
 
 /-! ## Part B: C01 -- the executable certificate computes the theorem-level certificate matrices
